@@ -45,6 +45,10 @@ type Exec struct {
 	noFrameHeaps map[string]bool
 	stateSeq   int
 	boxClosures map[string]*Closure
+	topFrame   *frame
+	curCallFrame *frame
+	curCallArg0  ssa.Value
+	defaultSpecs map[string]*FuncSpec
 }
 
 type modLoc struct {
@@ -142,7 +146,12 @@ func (e *Exec) oblige(fr *frame, st *State, kind, desc string, pos token.Pos, go
 			first = o
 		}
 	}
-	e.ctx.assume(imp(st.pc, goal))
+	if goal != "false" {
+		// continue under the assumption that the obligation holds; an
+		// obligation that is literally `false` marks an unmodelled construct and
+		// must not make the rest of the function vacuously provable
+		e.ctx.assume(imp(st.pc, goal))
+	}
 	return first
 }
 
